@@ -67,11 +67,12 @@ def png_roles(b):
 
 
 def _split_on_loop_var(b, s, iv):
-    """if the value stored by statement s depends on a local with exactly two definitions that sit on the two sides of a
-    comparison of the loop variable iv with a bound: [(local, def, 'below' | 'above', rendered bound)]; else []."""
+    """if the value stored by statement s depends on locals with exactly two definitions that sit on the two sides of a
+    comparison of the loop variable iv with one and the same bound (`if i < bpp { .. } else { .. }`, also inside helpers that
+    were inlined): [('below' | 'above', rendered bound, {local: def})] — one entry per side; else []."""
     from mir import op_place
     import lib
-    seen, work, cand = set(), [], None
+    seen, work, cands = set(), [], []
     rv = s["rv"]
 
     def ops_of(rv):
@@ -84,7 +85,7 @@ def _split_on_loop_var(b, s, iv):
         return []
     work = ops_of(rv)
     depth = 0
-    while work and depth < 40:
+    while work and depth < 80:
         depth += 1
         o = work.pop()
         p = op_place(o)
@@ -93,20 +94,19 @@ def _split_on_loop_var(b, s, iv):
         seen.add(p["l"])
         ds = b.defs.get(p["l"], [])
         if len(ds) == 2 and all(d[2] in ("rv", "call") for d in ds):
-            cand = p["l"]
-            break
+            cands.append(p["l"])
+            for d in ds:
+                work.extend(ops_of(d[3]) if d[2] == "rv" else d[3]["args"])
+            continue
         if len(ds) == 1:
             d = ds[0]
             if d[2] == "rv":
                 work.extend(ops_of(d[3]))
             elif d[2] == "call":
                 work.extend(d[3]["args"])
-    if cand is None:
-        return []
-    out = []
-    for d in b.defs[cand]:
-        side = None
-        bound = None
+
+    def side_of(d):
+        side, bound = None, None
         for g, s2 in lib.taken_edges(b, d[0]):
             t = b.term(g)
             if t["dty"] != "bool":
@@ -126,10 +126,26 @@ def _split_on_loop_var(b, s, iv):
             elif lc == iv and op in ("Gt", "Le"):
                 below = (op == "Gt") == truth
                 side, bound = ("below" if below else "above"), re.sub(r"#\d+", "", b.oname(a, 2))
-        if side is None:
-            return []
-        out.append((cand, d, side, bound))
-    return out if {x[2] for x in out} == {"below", "above"} else []
+        return side, bound
+    choice = {"below": {}, "above": {}}
+    bounds = set()
+    for l in cands:
+        sides = {}
+        for d in b.defs[l]:
+            side, bound = side_of(d)
+            if side is None:
+                sides = None
+                break
+            sides[side] = d
+            bounds.add(bound)
+        if not sides or set(sides) != {"below", "above"}:
+            continue        # a two-definition local that is not chosen by the loop variable: rendered as it is
+        for side, d in sides.items():
+            choice[side][l] = d
+    if not choice["below"] or len(bounds) != 1:
+        return []
+    bound = bounds.pop()
+    return [("below", bound, choice["below"]), ("above", bound, choice["above"])]
 
 
 def stores_with_range(b, names):
@@ -157,13 +173,15 @@ def stores_with_range(b, names):
                 if variants:
                     # the stored value is chosen by a comparison of the loop variable (`if i < bpp { .. } else { .. }`):
                     # one update per sub-range, as if the loop had been written as two loops
-                    for (l, d, side, bound) in variants:
-                        saved = b.defs[l]
-                        b.defs[l] = [d]
+                    for (side, bound, sel) in variants:
+                        saved = {l: b.defs[l] for l in sel}
+                        for l, d in sel.items():
+                            b.defs[l] = [d]
                         try:
-                            t = wide("%s = %s" % (b.pname(s["lhs"], 2), b.rvname(s["rv"], 10)))
+                            t = wide("%s = %s" % (b.pname(s["lhs"], 2), b.rvname(s["rv"], 12)))
                         finally:
-                            b.defs[l] = saved
+                            for l, ds in saved.items():
+                                b.defs[l] = ds
                         out.append((t, (lo, bound) if side == "below" else (bound, hi)))
                     continue
                 out.append((wide("%s = %s" % (b.pname(s["lhs"], 2), b.rvname(s["rv"], 10))), (lo, hi)))
@@ -185,7 +203,13 @@ PNG_DECODE = {
 def wide(t):
     """a widening of a byte to any signed/unsigned type of at least 16 bits is written `as W` (the width does not matter as
     long as 2 * 255 fits)."""
-    return re.sub(r" as (i16|u16|i32|u32|i64|u64|isize|usize)\b", " as W", t)
+    t = re.sub(r" as (i16|u16|i32|u32|i64|u64|isize|usize)\b", " as W", t)
+    # identities over bytes: 0 + x = x; floor(widen(x) / k) narrowed again = x / k for a byte x
+    for _ in range(3):
+        t = re.sub(r"Add\(0(?: as W)?,([^(),]+(?:\[[^\]]*\])?(?: as W)?)\)", r"\1", t)
+        t = re.sub(r"Add\(([^(),]+(?:\[[^\]]*\])?(?: as W)?),0(?: as W)?\)", r"\1", t)
+        t = re.sub(r"Div\((\*?\w+\[[^\]]*\]) as W,(\d+)\) as u8", r"Div(\1,\2)", t)
+    return t
 
 
 def predictor_geometry(ctx, F, pr, png):
@@ -378,8 +402,17 @@ def length_rules(ctx, F):
         ctx.ob("R-ORDER", "length-set|%s" % fn, ok, how, b.where(), what="%s does not set Length to the length of the content it installs on every path (%s)" % (fn, how))
     wx = F.fn("Document::write_cross_reference_stream")
     ls = [c for c in wx.calls if c.local and c.cname.endswith("Dictionary::set") and "Length" in wx.oname(c.args[1], 4)]
-    ctx.ob("R-ORDER", "length-set|write_cross_reference_stream", len(ls) == 1 and "stream_length" in wx.oname(ls[0].args[2], 4), "trailer Length = stream_length", wx.where(),
-           what="the cross-reference stream's Length is not set from the serialised table's length")
+    # the value comes out of create_xref_steam as a component of its result (a tuple or a struct, it does not matter): there it
+    # is the length of the serialised table
+    okl, howl = False, "?"
+    if len(ls) == 1:
+        comp = lib.call_component(F, wx, ls[0].args[2])
+        if comp is not None:
+            g, o = comp
+            howl = "%s: %s" % (F.canon_of(g), g.sname(o, 4))
+            okl = F.canon_of(g).endswith("create_xref_steam") and re.match(r"^len\(", g.sname(o, 4).lstrip("&*")) is not None
+    ctx.ob("R-ORDER", "length-set|write_cross_reference_stream", okl, "trailer Length = %s" % howl, wx.where(),
+           what="the cross-reference stream's Length is not set from the serialised table's length (it is %s)" % howl)
 
 
 def run(ctx):
